@@ -825,32 +825,54 @@ func (o *obs) finish(c *imapclient.Client, conn *fakeConn) {
 	})
 	o.try("Client.State", func() { o.note("State() = %v", c.State()) })
 	o.try("Client.Caps", func() {
+		// Once the connection has ended, Client.WaitGreeting selects between two channels that are
+		// both closed (greeting received, decoder finished), so Caps() - which starts with
+		// WaitGreeting - answers nil instead of the set it holds on about every second call, and
+		// formats the decoder's error (as long as the offending token) when it does. That coin is
+		// outside C11 (nil is a documented answer; nothing panics or grows), and asking again would
+		// only toss it again. What this harness adds on top is therefore kept O(1) whichever way it
+		// falls (capsAccessors), and the growth rule (growth.go) judges floors over repeated
+		// measurements rather than one run.
 		caps := c.Caps()
-		var names []string
-		for k := range caps {
-			names = append(names, string(k))
-		}
-		sort.Strings(names)
-		_ = caps.Has(imap.CapIMAP4rev2)
-		_ = caps.Has(imap.CapAppendLimit)
-		lim, ok := caps.AppendLimit()
-		if lim != nil && ok {
-			o.num("caps.appendlimit", uint64(*lim))
-		}
-		_ = caps.AuthMechanisms()
-		_ = caps.QuotaResourceTypes()
-		_ = caps.ThreadAlgorithms()
-		if len(names) > 12 {
-			o.note("Caps() = %d capabilities", len(names))
-		} else {
-			o.note("Caps() = %q", names)
-		}
+		o.capsAccessors("Caps()", caps)
 	})
 	o.try("Client.Close", func() {
 		err := c.Close()
 		o.note("Client.Close() again = %v", errStr(err))
 		o.readerPanic(err)
 	})
+}
+
+// capsAccessors invokes every accessor of a capability set. The harness itself allocates O(1)
+// here whatever the size of the set (it counts the members and keeps the 13 smallest names for
+// the trace), so that the growth measurements see the library's cost of the accessors only.
+func (o *obs) capsAccessors(site string, caps imap.CapSet) {
+	var names []string
+	n := 0
+	for k := range caps {
+		n++
+		if len(names) < 13 {
+			names = append(names, string(k))
+			sort.Strings(names)
+		} else if string(k) < names[12] {
+			names[12] = string(k)
+			sort.Strings(names)
+		}
+	}
+	_ = caps.Has(imap.CapIMAP4rev2)
+	_ = caps.Has(imap.CapAppendLimit)
+	lim, ok := caps.AppendLimit()
+	if lim != nil && ok {
+		o.num("caps.appendlimit", uint64(*lim))
+	}
+	_ = caps.AuthMechanisms()
+	_ = caps.QuotaResourceTypes()
+	_ = caps.ThreadAlgorithms()
+	if n > 12 {
+		o.note("%s = %d capabilities", site, n)
+	} else {
+		o.note("%s = %q", site, names)
+	}
 }
 
 // provenance: every number handed to the caller must be a number the server wrote. A value that
@@ -1168,10 +1190,7 @@ func (o *obs) issueCommands(c *imapclient.Client, uidFirst bool, wg *sync.WaitGr
 			o.readerPanic(err)
 			if caps != nil {
 				o.cover("capability:data")
-				lim, ok := caps.AppendLimit()
-				if ok && lim != nil {
-					o.num("caps.appendlimit", uint64(*lim))
-				}
+				o.capsAccessors("T20 CapabilityCommand caps", caps)
 			}
 			o.note("T20 CapabilityCommand.Wait() = %d caps err=%v", len(caps), errStr(err))
 		})
@@ -1181,6 +1200,7 @@ func (o *obs) issueCommands(c *imapclient.Client, uidFirst bool, wg *sync.WaitGr
 			if data != nil {
 				if len(data.Caps) > 0 {
 					o.cover("enabled:data")
+					o.capsAccessors("T21 EnableData.Caps", data.Caps)
 				}
 				o.note("T21 EnableCommand.Wait() = %d caps err=%v", len(data.Caps), errStr(err))
 			}
